@@ -140,37 +140,104 @@ def taint(ctx):
     return cache["order"]
 
 
-def dict_build_order(ctx, mod, cls, fn, attrs):
-    """loops `for name in self.<attr>: d[name] = ...` in cls.fn must iterate an ORDERED list"""
+def dict_build_order(ctx, mod, cls, attrs):
+    """every loop / comprehension of the module that fills an ordered container (dict item store,
+    append, dict / list comprehension) while iterating the declared list self.<attr> of `cls` -
+    directly, or through a parameter that a call site binds to self.<attr> - must iterate an ORDERED
+    sequence.  The functions are found by what they iterate, not by name."""
     ot = taint(ctx)
-    fi = ctx.repo.func(mod, f"{cls}.{fn}", required=False)
-    out = []
-    if fi is None:
-        return [{"construct": f"{cls}.{fn}: dict builder not found", "ok": False,
-                 "detail": "anchor function vanished", "loc": mod}]
-    found = set()
-    for n in ast.walk(fi.node):
-        # a for statement or a comprehension generator: both have .iter
-        if isinstance(n, (ast.For, ast.comprehension)):
-            it = n.iter
+    m = ctx.repo.modules[mod]
+    funcs = list(m.functions.values())
+    for c in m.classes.values():
+        funcs += list(c.methods.values())
+    by_name = {}
+    for fi in funcs:
+        by_name.setdefault(fi.name, []).append(fi)
+    ci = ctx.repo.cls(mod, cls)
+
+    def is_attr(fi, e, alias):
+        """the attribute (one of attrs) that expression e denotes in fi, or None"""
+        if isinstance(e, ast.Attribute) and e.attr in attrs and isinstance(e.value, ast.Name) \
+                and fi.cls is ci and fi.params and e.value.id == fi.params[0]:
+            return {e.attr}
+        if isinstance(e, ast.Name):
+            return alias.get((fi.fq, e.id))
+        return None
+
+    # parameters (and locals) bound to self.<attr>: fixpoint over name-resolved calls
+    alias = {}
+    for _ in range(4):
+        for fi in funcs:
+            for n in ast.walk(fi.node):
+                if isinstance(n, ast.Assign) and len(n.targets) == 1 \
+                        and isinstance(n.targets[0], ast.Name):
+                    a = is_attr(fi, n.value, alias)
+                    if a:
+                        alias.setdefault((fi.fq, n.targets[0].id), set()).update(a)
+                if not isinstance(n, ast.Call):
+                    continue
+                f = n.func
+                name = f.attr if isinstance(f, ast.Attribute) else f.id if isinstance(f, ast.Name) \
+                    else None
+                for callee in by_name.get(name, ()):
+                    ps = callee.params
+                    off = 1 if (callee.cls is not None and isinstance(f, ast.Attribute)
+                                and callee.flavour != "staticmethod") else 0
+                    for k, a_ in enumerate(n.args):
+                        at = is_attr(fi, a_, alias)
+                        if at and not isinstance(a_, ast.Starred) and k + off < len(ps):
+                            alias.setdefault((callee.fq, ps[k + off]), set()).update(at)
+                    for kw in n.keywords:
+                        at = is_attr(fi, kw.value, alias)
+                        if at and kw.arg in ps:
+                            alias.setdefault((callee.fq, kw.arg), set()).update(at)
+
+    def fills_ordered(n):
+        if isinstance(n, ast.comprehension):
+            return True            # the caller passes only generators of dict / list comprehensions
+        for x in ast.walk(ast.Module(body=n.body, type_ignores=[])):
+            if isinstance(x, (ast.Assign, ast.AugAssign)):
+                ts = x.targets if isinstance(x, ast.Assign) else [x.target]
+                if any(isinstance(t, ast.Subscript) for t in ts):
+                    return True
+            if isinstance(x, ast.Call) and isinstance(x.func, ast.Attribute) \
+                    and x.func.attr in ("append", "extend", "insert", "setdefault", "update"):
+                return True
+        return False
+    out, found = [], set()
+    for fi in funcs:
+        sites = []
+        for n in ast.walk(fi.node):
+            if isinstance(n, ast.For):
+                sites.append((n, n.iter))
+            elif isinstance(n, (ast.DictComp, ast.ListComp)):
+                sites += [(g, g.iter) for g in n.generators]
+            elif isinstance(n, ast.Call) and isinstance(n.func, ast.Name) \
+                    and n.func.id in ("dict", "list", "tuple") and n.args \
+                    and isinstance(n.args[0], ast.GeneratorExp):
+                sites += [(g, g.iter) for g in n.args[0].generators]
+        for n, it in sites:
             base = it
             while isinstance(base, ast.Call) and isinstance(base.func, ast.Name) \
                     and base.func.id in ("zip", "enumerate", "list", "tuple", "iter", "set",
                                          "frozenset", "sorted", "reversed") and base.args:
                 base = base.args[0]
-            if isinstance(base, ast.Attribute) and base.attr in attrs:
-                found.add(base.attr)
-                k = ot.kind(fi, it)
-                k2 = ot.attr_kind.get((cls, base.attr), UNKNOWN)
-                ok = k != HASH and k2 != HASH
-                out.append({"construct": f"{cls}.{fn}: per-host {base.attr} dict is filled by "
-                            f"iterating self.{base.attr} (an ordered list)", "ok": ok,
-                            "detail": f"iteration kind {k}, attribute kind {k2}",
-                            "loc": f"{fi.module.path}:{getattr(n, 'lineno', it.lineno)}"})
+            a = is_attr(fi, base, alias)
+            if not a or not fills_ordered(n):
+                continue
+            found |= a
+            k = ot.kind(fi, it)
+            k2 = {x: ot.attr_kind.get((cls, x), UNKNOWN) for x in sorted(a)}
+            ok = k != HASH and HASH not in k2.values()
+            out.append({"construct": f"{fi.qualname}: an ordered container is filled by iterating "
+                        f"the declared {' / '.join(sorted(a))} list", "ok": ok,
+                        "detail": f"iteration kind {k}, attribute kind {k2}",
+                        "loc": f"{fi.module.path}:{getattr(n, 'lineno', it.lineno)}"})
     for a in attrs:
         if a not in found:
-            out.append({"construct": f"{cls}.{fn}: loop over self.{a} building the per-host dict",
-                        "ok": None, "detail": "no iteration over the attribute found (recognised: "
-                        "for statements and comprehension generators over self.<attr>, possibly "
-                        "inside zip/enumerate/list)", "loc": fi.module.path})
+            out.append({"construct": f"{mod.split('.')[-1]}: loop over {cls}.{a} building the "
+                        "per-host dict", "ok": None, "detail": "no iteration over the attribute "
+                        "found (recognised: for statements and comprehension generators over "
+                        "self.<attr> or a parameter bound to it, possibly inside zip/enumerate/"
+                        "list)", "loc": m.path})
     return out
